@@ -223,6 +223,29 @@ PROPS["C19"] = {
                     q=dict(STEPQ, inums=1, namecmp=1), t=dict(STEPT, namecmp=1), lmax=2, budget_s=400, budget_s_t=2400)],
 }
 
+PROPS["C07"] = {
+    "level": "model_checking",
+    "explanation": "WRITE with every stability level and both settings of the server's unstable option, and WRITE(UNSTABLE);COMMIT, executed symbolically with the journal monitor: committed level not weaker than requested, anything above UNSTABLE durable before the reply, COMMIT flushes every earlier append, data readable at once; write verifier equal within an instance and different between two instances (clock contract: successive readings differ)",
+    "assumptions": JOURNAL + ["time.Now returns distinct, increasing instants (clock contract)", "suffix-only loss of unflushed transactions is the journal's group-commit property (C01 K-harness / dependency)"],
+    "outside": ["crash images of the journal itself", "more than one unstable write before the COMMIT"],
+    "harnesses": [H("nfs.VerifC07Write", covers=("stable", "unstable", "err"), q=dict(STEPQ, inums=1), t=STEPT, lmax=2, budget_s=300, budget_s_t=1200),
+                  H("nfs.VerifC07Commit", covers=("end",), q=dict(STEPQ, inums=1), t=STEPT, lmax=2, budget_s=300, budget_s_t=1200)],
+}
+
+PROPS["C01"] = {
+    "level": "model_checking",
+    "monitor_harnesses": ["VerifStep"],
+    "explanation": "compositional and bounded: (b) every RPC executed symbolically with the journal monitor makes at most one journal transaction, never writes the disk outside the journal, and replies OK (other than an UNSTABLE write) only after its transaction was flushed; (a) the real go-journal write-ahead log (Append / installBlocks+Advance / recoverCircular) executed symbolically against a recording disk with a symbolic crash point and lost-write mask recovers all-or-nothing and durably; (c) MakeNfs on a disk whose log holds a committed, uninstalled transaction",
+    "assumptions": JOURNAL + ["block writes are atomic and writes before a barrier are durable (disk contract)", "composition of (a), (b), (c) into the end-to-end statement is argued in DESIGN.md, not checked"],
+    "outside": ["more than 3 updates per group / 8 live log entries", "log positions >= 2^12", "histories (covered through the per-RPC induction)", "torn block writes"],
+    "modfile": True,
+    "harnesses": _steps("p01", (1, 2, 3, 4)) + [
+        H("nfs.VerifC01Recovery", q={"realwal": 1, "disksz": 10000}, t={"realwal": 1, "disksz": 10000}, budget_s=300),
+        {"fn": "github.com/mit-pdos/go-journal/wal.VerifWalAppend", "covers": ["end", "durable"], "q": {"live": 2, "group": 2, "disksz": 2000}, "t": {"live": 3, "group": 3, "disksz": 2000}, "budget_s": 600, "budget_s_t": 3000, "timeout_ms": 120000},
+        {"fn": "github.com/mit-pdos/go-journal/wal.VerifWalInstall", "covers": ["end", "nonempty"], "q": {"live": 2, "disksz": 2000}, "t": {"live": 3, "disksz": 2000}, "budget_s": 600, "budget_s_t": 3000, "timeout_ms": 120000},
+    ],
+}
+
 PROPS["C14"] = {
     "level": "other",
     "monitor_harnesses": ["VerifStep", "VerifC14Background"],
@@ -250,6 +273,8 @@ def items(prop, tier, seed):
             continue
         it = {"fn": h["fn"], "covers": h["covers"], "params": dict(params), "tag": h.get("tag", "")}
         for k in ("unwind", "lmax", "timeout_ms", "budget_s", "max_paths", "max_steps"):
+            pass
+        for k in ("unwind", "lmax", "timeout_ms", "budget_s", "max_paths", "max_steps"):
             kk = k + ("_t" if tier == "thorough" and (k + "_t") in h else "")
             if kk in h:
                 it[k] = h[kk]
@@ -275,6 +300,8 @@ def ensure_modfile(root, repo, env):
     tp = os.path.join(root, "third_party", "go-journal")
     src = subprocess.run(["go", "list", "-m", "-f", "{{.Dir}}", "github.com/mit-pdos/go-journal"], cwd=repo, env=env,
                          capture_output=True, text=True).stdout.strip()
+    if os.path.isdir(tp) and subprocess.run(["diff", "-rq", src, tp], capture_output=True).returncode != 0:
+        shutil.rmtree(tp)  # must be a verbatim copy of the module-cache source
     if not os.path.isdir(tp):
         os.makedirs(os.path.dirname(tp), exist_ok=True)
         shutil.copytree(src, tp)
